@@ -183,7 +183,9 @@ VARIANTS += [
       why="cluster policies draw from generators carried across rows"),
     V("c05-m13", "C05", "neighbors", "_KNearest._predict_contexts", "predictions = [None] * len(contexts)",
       "predictions = [None] * len(contexts)\ncentre = np.mean(contexts, axis=0)", "R5.1",
-      why="a statistic of the worker's chunk computed outside the row loop"),
+      also=[("neighbors", "_KNearest._predict_contexts", "row_2d = row[np.newaxis, :]",
+             "row_2d = (row - centre)[np.newaxis, :]")],
+      why="a statistic of the worker's chunk computed outside the row loop and used for every row"),
     V("c05-b1", "C05", "base_mab", "BaseMAB._parallel_predict",
       "seeds = self.rng.randint(np.iinfo(np.int32).max, size=total_contexts)",
       "upper = np.iinfo(np.int32).max\nseeds = self.rng.randint(upper, size=total_contexts)", benign=True),
